@@ -211,6 +211,9 @@ def d1_inventory(ctx, idx):
                 r.violation('%s <- %s' % (fld, q), 'new writer of the reviewed persistent field %s: `%s`; state written here '
                             'survives the call and can change what a later call returns' % (fld, short(nodes[0])), where,
                             expected='writers: %s' % sorted(INVENTORY[fld]), found=q)
+            elif fld.startswith('self.') and _per_call_object_class(idx, idx.funcs['mitxgraders.' + q].cls):
+                r.ok('%s <- %s' % (fld, q), 'own attribute of a per-call object: every instance of %s is a local that never leaves the '
+                     'function that creates it' % idx.funcs['mitxgraders.' + q].cls.name, where, nontrivial=False)
             else:
                 r.undecided('%s <- %s' % (fld, q), 'new persistent field not in the reviewed inventory: `%s`' % short(nodes[0]), where)
         for fld, q, n in construction:
@@ -223,6 +226,65 @@ def d1_inventory(ctx, idx):
                     ok = f.name in allowed or f.name == '__init__'
                     r.check(ok, '%s called from %s' % (name, f.qualname[len('mitxgraders.'):]), 'construction phase only',
                             '%s writes instance state and is now called from %s, i.e. while grading' % (name, f.qualname), lib.loc(f, c))
+
+
+_PER_CALL_CACHE = {}
+
+
+def _per_call_object_class(idx, ci):
+    """Every instance of class ci is created as `name = C(...)` inside a function and used there only through `name.attr`
+    (attribute reads / method calls): it is never returned, yielded, stored, passed on or captured, so it does not outlive
+    the call and its attributes are not persistent state.  Not for classes with a base in the package (graders, samplers)."""
+    if ci is None:
+        return False
+    key = (id(idx), ci.qualname)
+    if key in _PER_CALL_CACHE:
+        return _PER_CALL_CACHE[key]
+    ok = True
+    if any(isinstance(b, str) and b.startswith('mitxgraders.') for b in ci.bases):
+        ok = False
+    sites = 0
+    if ok:
+        for f in idx.package_funcs():
+            for n in ast.walk(f.node):
+                if isinstance(n, ast.Call) and isinstance(n.func, ast.Name) and n.func.id == ci.name:
+                    try:
+                        tq = idx.resolve_name(f.module, ci.name)
+                    except Exception:
+                        tq = None
+                    if not (isinstance(tq, tuple) and tq and tq[0] == 'class' and tq[1] is ci):
+                        continue
+                    sites += 1
+                    st = lib.enclosing_stmt(n)
+                    if not (isinstance(st, ast.Assign) and st.value is n and len(st.targets) == 1 and isinstance(st.targets[0], ast.Name)):
+                        ok = False
+                        break
+                    nm = st.targets[0].id
+                    for u in ast.walk(f.node):
+                        if isinstance(u, ast.Name) and u.id == nm and u is not st.targets[0]:
+                            par = getattr(u, '_parent', None)
+                            if not (isinstance(par, ast.Attribute) and par.value is u):
+                                ok = False
+                                break
+                        if isinstance(u, (ast.Lambda, ast.FunctionDef)) and u is not f.node and \
+                                any(isinstance(x, ast.Name) and x.id == nm for x in ast.walk(u)):
+                            ok = False
+                            break
+                    if not ok:
+                        break
+            if not ok:
+                break
+        # a reference to the class other than a call (passed as a factory, subclassed) is not followed
+        for m in idx.package_modules():
+            for n in ast.walk(m.tree):
+                if isinstance(n, ast.Name) and n.id == ci.name and isinstance(n.ctx, ast.Load):
+                    par = getattr(n, '_parent', None)
+                    if not (isinstance(par, ast.Call) and par.func is n):
+                        if m is ci.module or ci.name in m.imports:
+                            ok = False
+    ok = ok and sites > 0
+    _PER_CALL_CACHE[key] = ok
+    return ok
 
 
 def _field_of_receiver(fx, recv):
